@@ -1048,6 +1048,7 @@ func (c *FnCtx) builtin(fr *Frame, st *State, b *ssa.Builtin, cc *ssa.CallCommon
 			case *types.Basic:
 				return Sc{c.coerceInt(c.strLen(x.T), types.Typ[types.Int])}
 			case *types.Map:
+				c.mapLenWitness(st, t.(*types.Map), x.T)
 				return Sc{c.coerceInt(c.mapLen(st, x.T), types.Typ[types.Int])}
 			case *types.Chan:
 				l := c.chanField(st, "chan$len", SInt, x.T)
